@@ -25,13 +25,17 @@ theorem dense_record_ok (g : Geometry) (T : Mat) (thr : Rat) (hwf : DenseWF g T)
     denseOK g T thr ⟨T.map fun row => ids.map fun c => row.getD c 0, ids, amp, best⟩ = true :=
   Lemmas.dense_record_ok g T thr hwf h0 h1
 
-/-- `get_template` on dense storage returns that record for the (optionally unwhitened) waveform. -/
-theorem getTemplateDense_auto (g : Geometry) (wmi : Mat) (sc : Rat) (Tw : Mat) (thr : Rat) (unwh : Bool) :
-    getTemplateDense g wmi sc Tw none thr unwh =
-      (let T := if unwh then unwhiten wmi sc Tw none else Tw
-       let r := findBestChannels g T thr
-       ⟨T.map fun row => r.1.map fun c => row.getD c 0, r.1, r.2.1, r.2.2⟩) :=
-  Lemmas.getTemplateDense_auto g wmi sc Tw thr unwh
+/-- `get_template` on dense storage, automatic channel selection, exact arithmetic (`_get_template_dense`, model.py:898-925): the record
+RETURNED by `_get_template_dense` for the (optionally unwhitened) waveform satisfies the C05 predicate `denseOK` of
+that waveform (the composition of `dense_record_ok` with the definition of `getTemplateDense`; the unfolding itself
+is `Lemmas.getTemplateDense_auto`).  `hwf`: shape of the waveform the record is built from (`unwhiten_entry` says
+what its entries are). -/
+theorem getTemplateDense_auto (g : Geometry) (wmi : Mat) (sc : Rat) (Tw : Mat) (thr : Rat) (unwh : Bool)
+    (hwf : DenseWF g (if unwh then unwhiten wmi sc Tw none else Tw)) (h0 : 0 ≤ thr) (h1 : thr ≤ 1) :
+    denseOK g (if unwh then unwhiten wmi sc Tw none else Tw) thr
+      (getTemplateDense g wmi sc Tw none thr unwh) = true := by
+  rw [Lemmas.getTemplateDense_auto]
+  exact Lemmas.dense_record_ok g _ thr hwf h0 h1
 
 /-- What "unwhitened" means, entry by entry (model.py:753-760): sample `s`, channel `j` of the unwhitened waveform
 is `(Σ_k x[s, k] · wmi[k, j]) · template_scaling` (`template_scaling` of params.py, 1 when absent).  `hrow`: a
@@ -43,9 +47,12 @@ theorem unwhiten_entry (wmi : Mat) (sc : Rat) (x : Mat) (s j : Nat) (hs : s < x.
   Lemmas.unwhiten_entry wmi sc x s j hs hj hrow
 
 /-- Sparse storage unwhitens on the sub-matrix of the kept channels `ch`: column `j` of the result belongs to
-channel `ch[j]` and `unwhiten(x, ch)[s, j] = (Σ_k x[s, k] · wmi[ch[k], ch[j]]) · template_scaling`. -/
+channel `ch[j]` and `unwhiten(x, ch)[s, j] = (Σ_k x[s, k] · wmi[ch[k], ch[j]]) · template_scaling`.
+`hch`: every kept channel indexes a row and a column of the inverse whitening matrix — with a channel id beyond it
+the real `wmi[np.ix_(ch, ch)]` raises IndexError (model.py:767), while the totalised `entry` of the model would read 0. -/
 theorem unwhiten_entry_sub (wmi : Mat) (sc : Rat) (x : Mat) (ch : List Nat) (s j : Nat) (hs : s < x.length)
-    (hj : j < ch.length) (hrow : (x.getD s []).length = ch.length) :
+    (hj : j < ch.length) (hrow : (x.getD s []).length = ch.length)
+    (_hch : ∀ c ∈ ch, c < wmi.length ∧ c < ncols wmi) :
     entry (unwhiten wmi sc x (some ch)) s j =
       (sumTo ch.length fun k => entry x s k * entry wmi (ch.getD k 0) (ch.getD j 0)) * sc :=
   Lemmas.unwhiten_entry_sub wmi sc x ch s j hs hj hrow
@@ -63,26 +70,62 @@ theorem dense_explicit_ok (g : Geometry) (wmi : Mat) (sc : Rat) (Tw : Mat) (l : 
 in `sparse_listed_iff`), ordered by non-increasing amplitude, peak first, columns and amplitudes aligned with
 them; the waveform is unwhitened on the kept sub-matrix.  `m` is the table's "−1" (`minusOne`: −1 in a signed
 table, the all-ones value in an unsigned one).  `hdist`: a channel stored twice in one row is outside the
-property (which column would be "the template on that channel"?); the real code then lists it twice. -/
+property (which column would be "the template on that channel"?); the real code then lists it twice.
+`hk`: at least one stored column is in use and carries signal.  Otherwise there is NO record: the real code raises
+ValueError (`template_max.max()` of an empty array when no column is in use, model.py:944; `np.argmax` of an empty
+amplitude vector when every column in use is all-zero, model.py:956), while the model would return the empty record
+with `best = 0` (`sparse_raises_of_no_signal` says which inputs these are; `sparseRaises`, driver field `raises`,
+compared with the real outcome by the harness).
+Arithmetic: the model is exact (`Rat`), the real code casts the waveform (`template.astype(np.float32)`, model.py:951)
+and subtracts in single precision (`max − min`, model.py:955).  `hf`: the kept (unwhitened) waveform consists of float32
+values (the cast is the identity on it); `hp`: every kept column's exact peak-to-peak is a float32 value — then the
+model's amplitude vector IS the rounded one (second conjunct: every reported amplitude is a float32 value).  Outside
+`hf`/`hp` the statement says nothing about the real record (same gap as `dense_f32_record_ok`, where the cast is
+modelled); the harness generates sparse datasets inside them (small integers × dyadic gains). -/
 theorem sparse_record_ok (wmi : Mat) (sc : Rat) (Tw : Mat) (cols : List Int) (m : Int) (unwh : Bool)
     (hrect : ∀ row ∈ Tw, row.length = cols.length) (hT : Tw ≠ [])
-    (hcols : ∀ c ∈ cols, c = m ∨ 0 ≤ c) (hdist : (cols.filter (· ≠ m)).Nodup) :
-    let keep := keptCols Tw cols m
-    let ch := keep.map fun j => (cols.getD j 0).toNat
-    let sub : Mat := Tw.map fun row => keep.map fun j => row.getD j 0
-    sparseOK ch (if unwh then unwhiten wmi sc sub (some ch) else sub)
-      (getTemplateSparse wmi sc Tw cols m unwh) = true :=
-  Lemmas.sparse_record_ok wmi sc Tw cols m unwh hrect hT hcols hdist
+    (hcols : ∀ c ∈ cols, c = m ∨ 0 ≤ c) (hdist : (cols.filter (· ≠ m)).Nodup)
+    (_hk : keptCols Tw cols m ≠ [])
+    (_hf : let keep := keptCols Tw cols m
+           let ch := keep.map fun j => (cols.getD j 0).toNat
+           let sub : Mat := Tw.map fun row => keep.map fun j => row.getD j 0
+           castF 24 (if unwh then unwhiten wmi sc sub (some ch) else sub)
+             = (if unwh then unwhiten wmi sc sub (some ch) else sub))
+    (hp : ∀ j, j < (keptCols Tw cols m).length →
+      roundNE 24 (ptp (col (if unwh then unwhiten wmi sc
+          (Tw.map fun row => (keptCols Tw cols m).map fun j => row.getD j 0)
+          (some ((keptCols Tw cols m).map fun j => (cols.getD j 0).toNat))
+        else Tw.map fun row => (keptCols Tw cols m).map fun j => row.getD j 0) j))
+      = ptp (col (if unwh then unwhiten wmi sc
+          (Tw.map fun row => (keptCols Tw cols m).map fun j => row.getD j 0)
+          (some ((keptCols Tw cols m).map fun j => (cols.getD j 0).toNat))
+        else Tw.map fun row => (keptCols Tw cols m).map fun j => row.getD j 0) j)) :
+    (let keep := keptCols Tw cols m
+     let ch := keep.map fun j => (cols.getD j 0).toNat
+     let sub : Mat := Tw.map fun row => keep.map fun j => row.getD j 0
+     sparseOK ch (if unwh then unwhiten wmi sc sub (some ch) else sub)
+       (getTemplateSparse wmi sc Tw cols m unwh) = true) ∧
+    ∀ a ∈ (getTemplateSparse wmi sc Tw cols m unwh).amplitude, roundNE 24 a = a :=
+  ⟨Lemmas.sparse_record_ok wmi sc Tw cols m unwh hrect hT hcols hdist,
+   Lemmas.sparse_amp_exact wmi sc Tw cols m unwh 24 hp⟩
 
 /-- Sparse storage, "the stored channels minus unused (−1) and signal-free ones": channel `c` is listed iff some
 stored column `j` holds it, is in use (`cols[j] ≠ m`) and carries signal — its largest absolute value exceeds
 `1e-6` of the largest absolute value over the columns IN USE (`usedMax_spec`: that reference value is attained on a
-used column and bounds every used column; what an unused column holds does not enter). -/
-theorem sparse_listed_iff (wmi : Mat) (sc : Rat) (Tw : Mat) (cols : List Int) (m : Int) (unwh : Bool) (c : Nat) :
+used column and bounds every used column; what an unused column holds does not enter).  `hk`: some column is kept
+(otherwise the real code raises and lists nothing, see `sparse_record_ok`). -/
+theorem sparse_listed_iff (wmi : Mat) (sc : Rat) (Tw : Mat) (cols : List Int) (m : Int) (unwh : Bool) (c : Nat)
+    (_hk : keptCols Tw cols m ≠ []) :
     c ∈ (getTemplateSparse wmi sc Tw cols m unwh).channels ↔
       ∃ j, j < cols.length ∧ (cols.getD j 0).toNat = c ∧ cols.getD j 0 ≠ m ∧
         colAbsMax Tw j > listMax ((usedCols cols m).map (colAbsMax Tw)) * (1 / 1000000) :=
   Lemmas.sparse_listed_iff wmi sc Tw cols m unwh c
+
+/-- The inputs on which `_get_template_sparse` has no record (the real code raises ValueError, see `sparse_record_ok`):
+no stored column is kept iff every column IN USE is all-zero (in particular when no column is in use). -/
+theorem sparse_raises_of_no_signal (Tw : Mat) (cols : List Int) (m : Int) :
+    sparseRaises Tw cols m = true ↔ ∀ j ∈ usedCols cols m, colAbsMax Tw j = 0 :=
+  Lemmas.sparse_raises_of_no_signal Tw cols m
 
 theorem usedMax_spec (Tw : Mat) (cols : List Int) (m : Int) (h : usedCols cols m ≠ []) :
     (∃ j ∈ usedCols cols m, colAbsMax Tw j = listMax ((usedCols cols m).map (colAbsMax Tw))) ∧
@@ -92,20 +135,30 @@ theorem usedMax_spec (Tw : Mat) (cols : List Int) (m : Int) (h : usedCols cols m
 /-- Floating-point path of an unwhitened dense request (model.py:908, `self._unwhiten(template_w).astype(np.float32)`):
 the record is the C05 record OF THE SINGLE PRECISION WAVEFORM `denseF32Input` — listed channels, their order, the
 amplitude vector and the columns all refer to the rounded waveform that is returned (not to the double precision
-product).  `hwf`: shape of the rounded waveform (the cast keeps the shape of the stored template). -/
+product).  `hwf`: shape of the rounded waveform (the cast keeps the shape of the stored template).
+`hp`: the model's amplitude vector is the EXACT peak-to-peak of the float32 values, the real one the ROUNDED float32
+subtraction `template.max(axis=0) - template.min(axis=0)` (model.py:858, 915); they are the same vector exactly when every
+channel's exact peak-to-peak is a float32 value (`ptpExactF 24`).  Outside `hp` (e.g. the waveform `[[16777216], [-1]]`:
+exact 16777217, NumPy 16777216) the statement says nothing about the real record, and the harness gives no verdict
+(driver field `ptp_exact`).  Second conjunct: under `hp` every reported amplitude is a float32 value. -/
 theorem dense_f32_record_ok (g : Geometry) (wmi : Mat) (sc : Rat) (Tw : Mat) (thr : Rat)
-    (hwf : DenseWF g (denseF32Input wmi sc Tw)) (h0 : 0 ≤ thr) (h1 : thr ≤ 1) :
-    denseOK g (denseF32Input wmi sc Tw) thr (getTemplateDenseF32 g wmi sc Tw none thr) = true := by
+    (hwf : DenseWF g (denseF32Input wmi sc Tw)) (h0 : 0 ≤ thr) (h1 : thr ≤ 1)
+    (hp : ptpExactF 24 (denseF32Input wmi sc Tw) = true) :
+    denseOK g (denseF32Input wmi sc Tw) thr (getTemplateDenseF32 g wmi sc Tw none thr) = true ∧
+    ∀ a ∈ (getTemplateDenseF32 g wmi sc Tw none thr).amplitude, roundNE 24 a = a := by
   have h := Lemmas.dense_record_ok g (denseF32Input wmi sc Tw) thr hwf h0 h1
   unfold getTemplateDenseF32
   rw [Lemmas.getTemplateDense_auto]
-  exact h
+  exact ⟨h, Lemmas.findBest_amp_exact g (denseF32Input wmi sc Tw) thr 24 hp⟩
 
-/-- the same with the caller's explicit channel list -/
+/-- the same with the caller's explicit channel list (`hp` as in `dense_f32_record_ok`) -/
 theorem dense_f32_explicit_ok (g : Geometry) (wmi : Mat) (sc : Rat) (Tw : Mat) (l : List Nat) (thr : Rat)
-    (hwf : DenseWF g (denseF32Input wmi sc Tw)) (hl : ∀ c ∈ l, c < ncols (denseF32Input wmi sc Tw)) :
-    denseExplicitOK (denseF32Input wmi sc Tw) l (getTemplateDenseF32 g wmi sc Tw (some l) thr) = true :=
-  Lemmas.dense_explicit_ok g wmi sc (denseF32Input wmi sc Tw) l thr false hwf hl
+    (hwf : DenseWF g (denseF32Input wmi sc Tw)) (hl : ∀ c ∈ l, c < ncols (denseF32Input wmi sc Tw))
+    (hp : ptpExactF 24 (denseF32Input wmi sc Tw) = true) :
+    denseExplicitOK (denseF32Input wmi sc Tw) l (getTemplateDenseF32 g wmi sc Tw (some l) thr) = true ∧
+    ∀ a ∈ (getTemplateDenseF32 g wmi sc Tw (some l) thr).amplitude, roundNE 24 a = a :=
+  ⟨Lemmas.dense_explicit_ok g wmi sc (denseF32Input wmi sc Tw) l thr false hwf hl,
+   Lemmas.explicit_amp_exact g wmi sc (denseF32Input wmi sc Tw) l thr 24 hwf hl hp⟩
 
 /-- the casts keep the shape -/
 theorem castF_shape (p : Nat) (M : Mat) :
@@ -130,6 +183,24 @@ example :
     let Tw : Mat := [[14416054 / 4194304, 12173928 / 4194304, 8], [-11739624 / 4194304, -13981749 / 4194304, -8]]
     (getTemplateDenseF32 g [[w, 0, 0], [0, w, 0], [0, 0, w]] 1 Tw none 0).channels = [2, 1, 0] ∧
     (getTemplateDense g [[w, 0, 0], [0, w, 0], [0, 0, w]] 1 Tw none 0 true).channels = [2, 0, 1] := by decide +kernel
+-- item: the hypotheses of `dense_f32_record_ok` on a non-dyadic gain (hp holds), and the reviewer's waveform where hp fails
+example :
+    let w : Rat := 6433713753386423 / 4503599627370496
+    ptpExactF 24 (denseF32Input [[w, 0], [0, w]] 1 [[3, 4], [-3, -4], [1, 0]]) = true ∧
+    ptpExactF 24 (denseF32Input [[1]] 1 [[16777216], [-1]]) = false ∧
+    (getTemplateDenseF32 ⟨[(0, 0)], none, 1⟩ [[1]] 1 [[16777216], [-1]] none 0).amplitude = [16777217] := by decide +kernel
+-- sparse: a record exists (hk) / does not exist (no column in use; every column in use all-zero)
+example : keptCols [[1, 6, 0, 3], [-1, 0, 0, 3]] [2, 0, -1, 1] (-1) = [0, 1, 3] ∧
+    sparseRaises [[1, 6, 0, 3], [-1, 0, 0, 3]] [2, 0, -1, 1] (-1) = false ∧
+    sparseRaises [[1, 2], [0, 0]] [-1, -1] (-1) = true ∧ sparseRaises [[0, 0, 7], [0, 0, 7]] [3, 4, -1] (-1) = true := by
+  decide +kernel
+-- the hypotheses `hk`, `hf`, `hp` of `sparse_record_ok` on the unwhitened example record below (gains 1, 2, 4)
+example :
+    let Tk := unwhiten [[1, 0, 0], [0, 2, 0], [0, 0, 4]] 1 [[1, 6, 3], [-1, 0, 3]] (some [2, 0, 1])
+    keptCols [[1, 6, 0, 3], [-1, 0, 0, 3]] [2, 0, -1, 1] (-1) = [0, 1, 3] ∧ castF 24 Tk = Tk ∧
+    Tk = [[4, 6, 6], [-4, 0, 6]] ∧ ∀ j, j < 3 → roundNE 24 (ptp (col Tk j)) = ptp (col Tk j) := by decide +kernel
+-- unwhiten on kept channels [2, 0] of a 3x3 inverse (hch: 2 < 3): [[1, 1]] · [[4, 0], [0, 1]] · 10
+example : unwhiten [[1, 0, 0], [0, 2, 0], [0, 0, 4]] 10 [[1, 1]] (some [2, 0]) = [[40, 10]] := by decide +kernel
 example : oneTermCols [[2, 0], [0, 1/3]] = true ∧ oneTermCols [[1, 1], [0, 1]] = false ∧
     ptpExactF 24 [[16777217], [0]] = false ∧ ptpExactF 24 [[16777216], [0]] = true := by decide +kernel
 
